@@ -4,6 +4,12 @@ OWNED: (regex on the clause key, [properties]) -- first match wins; obligations 
 property listed in their contract's `props`.
 """
 OWNED = [
+    (r"Sequence\._add/ensures\.(phase-is-programmed-plus-reference|starts-after-latest-phase-shift-of-targets|targets-marked-used|post-phase-shift-applied|BRINV)", ["C07"]),
+    (r"Sequence\._add/ensures\.(scheduled-duration-is-validated|accepted-unchanged-if-clock-multiple|within-limits-if-unchanged)", ["C01"]),
+    (r"Sequence\._add/ensures\.appends-a-pulse-slot-on-the-same-targets", ["C02"]),
+    (r"Sequence\._validate_and_adjust_pulse/ensures\.(phase-is-programmed-plus-reference|post-phase-shift-kept)", ["C07"]),
+    (r"Sequence\._validate_and_adjust_pulse/ensures\.", ["C01"]),
+    (r"Sequence\._phase_shift/", ["C07"]),
     (r"/exc_safe\.", ["C09"]),
     (r"(Channel\.validate_duration|_ChannelSchedule\.adjust_duration)/ensures\.at_most_max", ["C01"]),
     (r"add_target/ensures\.same-targets-inserts-nothing", ["C10"]),
@@ -25,6 +31,8 @@ PROPS = {
     "C02": dict(lemmas=["A-mod-of-multiple"], not_decided=[], assumptions=["A-NOALIAS list-valued fields (.slots, .eom_blocks) are not aliased between objects"]),
     "C03": dict(lemmas=["L-first-retarget"], not_decided=["fall time of a past pulse is taken in the other channel's current EOM mode or non-EOM mode, whichever is shorter (fall_min)"],
                 assumptions=["A-EOMBW EOM rise time <= channel rise time", "A-DICT-ORDER iteration order of the schedule is unconstrained"]),
+    "C07": dict(lemmas=["L-phase-additive"], not_decided=["rotation by phi about z on the emulated qubit (QuTiP ODE)", "EOM drift-corrected adds: phase clauses are stated for drift-free adds"],
+                assumptions=["A-PI 3 < pi < 4 (only positivity is used)", "SLM-mask DMM side effect of _add is excluded by precondition (no pending SLM mask DMM)"]),
     "C10": dict(lemmas=[], not_decided=["phase-jump clause with phase-drift correction (EOM) is stated for drift-free adds only"], assumptions=[]),
     "C09": dict(only=r"/(exc_safe|frame)\.", lemmas=[], not_decided=["replay determinism as a theorem; draw()"], assumptions=[]),
 }
